@@ -167,13 +167,14 @@ Proof.
 Qed.
 
 Lemma run_fstatat t fd o :
-  tget t fd = Some o ->
+  tget t fd = Some o -> (o < PB s)%nat ->
   run t (os (w_fstatat fz fd [])) =
   Done t (Ok {| st_mode := mode_of (FSModel.kind_of s o); st_uid := 0; st_ino := N.of_nat o; st_dev := 0 |}).
 Proof.
-  intro Hfd. unfold os, map_err, w_fstatat, simple1, rustix_path.
+  intros Hfd Hlt. unfold os, map_err, w_fstatat, simple1, rustix_path.
   rewrite (tget_valid _ _ _ Hfd). cbn [negb has_nul has_byte existsb bind Static.run].
-  unfold answer. cbn [sem]. rewrite (tget_not_cwd _ _ _ Hfd), Hfd. reflexivity.
+  unfold answer. cbn [sem]. rewrite (tget_not_cwd _ _ _ Hfd), Hfd.
+  destruct (Nat.leb_spec (PB s) o) as [Hle|_]; [lia|]. reflexivity.
 Qed.
 
 Lemma run_readlinkat t fd o body :
@@ -207,11 +208,11 @@ Lemma run_close t fd : run t (close fd) = Done (tdel t fd) tt.
 Proof. reflexivity. Qed.
 
 Lemma run_may_follow ps t dir link d l :
-  tget t dir = Some d -> tget t link = Some l ->
+  tget t dir = Some d -> tget t link = Some l -> (d < PB s)%nat -> (l < PB s)%nat ->
   run t (may_follow_link fz ps dir link) = Done t (Ok tt).
 Proof.
-  intros Hd Hl. unfold may_follow_link. cbn [Static.run]. unfold answer at 1. cbn [sem].
-  unfold bindR. rewrite run_bind, (run_fstatat _ _ _ Hd). rewrite run_bind, (run_fstatat _ _ _ Hl).
+  intros Hd Hl Hdlt Hllt. unfold may_follow_link. cbn [Static.run]. unfold answer at 1. cbn [sem].
+  unfold bindR. rewrite run_bind, (run_fstatat _ _ _ Hd Hdlt). rewrite run_bind, (run_fstatat _ _ _ Hl Hllt).
   cbn [st_uid as_num z2n Z.to_N]. rewrite (N.eqb_refl 0), orb_true_r. reflexivity.
 Qed.
 
@@ -512,7 +513,7 @@ Proof.
   assert (Hchk : run t1 (if is_dotdot part then chk nx root expn else Ret (Ok tt)) = Done t1 (Ok tt)).
   { destruct (is_dotdot part); [apply (chk_ok t1 nx root expn d Hfr1 Hr1 Hn1 Hexp)|reflexivity]. }
   rewrite Hchk. clear Hchk.
-  rewrite run_bind, (run_fstatat t1 nx d Hn1). cbn [st_mode].
+  rewrite run_bind, (run_fstatat t1 nx d Hn1 Hdlt). cbn [st_mode].
   rewrite symlink_mode_of. rewrite link_body_kind.
   destruct (FSModel.kind_of s d) as [| |body| | |] eqn:Ek; cbn [negb].
   all: try (
@@ -534,7 +535,7 @@ Proof.
   rewrite run_bind.
   assert (Hmf : run t1 (if EMU_PS_ONLY_TRAILING && negb (ps_trailing rest) then Ret (Ok tt) else may_follow_link fz ps cur nx)
                 = Done t1 (Ok tt)).
-  { destruct (EMU_PS_ONLY_TRAILING && negb (ps_trailing rest)); [reflexivity|apply (run_may_follow ps t1 cur nx o d Hc1 Hn1)]. }
+  { destruct (EMU_PS_ONLY_TRAILING && negb (ps_trailing rest)); [reflexivity|apply (run_may_follow ps t1 cur nx o d Hc1 Hn1 Holt Hdlt)]. }
   rewrite Hmf. clear Hmf.
   destruct follow as [g|], fe as [ge|]; try contradiction.
   2:{ apply fails_res_budget, (run_ret_partial t1 root cur expn refs (Some nx) remaining (OsError ELOOP) Hrc). }
